@@ -157,6 +157,9 @@ func (s *reportSim) spawnWarrior(wi int, startOffset Address) error {
 		return fmt.Errorf("warrior already spawned")
 	}
 
+	// reduce the offset first: startOffset+i must not wrap around 2^64
+	startOffset %= s.m
+
 	for i := Address(0); i < Address(len(w.data.Code)); i++ {
 		s.mem[(startOffset+i)%s.m] = w.data.Code[i]
 	}
@@ -166,7 +169,7 @@ func (s *reportSim) spawnWarrior(wi int, startOffset Address) error {
 	w.state = WarriorAlive
 	s.warriorLivingCount += 1
 
-	s.Report(Report{Type: WarriorSpawn, WarriorIndex: w.index, Address: startOffset % s.m})
+	s.Report(Report{Type: WarriorSpawn, WarriorIndex: w.index, Address: startOffset})
 
 	return nil
 }
